@@ -149,7 +149,7 @@ def load_findings(prop):
         return []
     with open(path) as f:
         data = json.load(f)
-    return [e for e in data.get('findings', []) if e.get('property') == prop]
+    return [e for e in data.get('findings', []) if e.get('property') == prop or prop in e.get('also', [])]
 
 
 def match_finding(findings, sig):
